@@ -580,7 +580,7 @@ theorem invJournal_step (cfg : Cfg) (s : State) (e : Event) (s' : State) (hA : I
     rename_i _ P hP _ b k hsend _ B hB hg
     obtain ⟨hBpw, hBtp, -, -⟩ := hg
     cases hs
-    exact invJournal_produce hA hI hP hB hsend hBpw hBtp rfl rfl rfl
+    exact invJournal_produce hA hI hP hB hsend hBpw hBtp rfl (produced_log ..) rfl
   | newBatch pw b =>
     simp only [step] at hs
     repeat' split at hs
